@@ -29,6 +29,7 @@ var extractors = []extractor{
 	{"Locks", genLocks},
 	{"RefPat", genRefPat},
 	{"Unify", genUnify},
+	{"AuthFacts", genAuthFacts},
 }
 
 func main() {
